@@ -17,6 +17,7 @@ from _pytask.cache import Cache
 
 if TYPE_CHECKING:
     from collections.abc import Sequence
+    from importlib.machinery import ModuleSpec
 
 __all__ = [
     "find_case_sensitive_path",
@@ -162,9 +163,25 @@ def import_path(path: Path, root: Path) -> ModuleType:
 
     mod = importlib.util.module_from_spec(spec)
     sys.modules[module_name] = mod
-    spec.loader.exec_module(mod)  # type: ignore[union-attr]
+    _exec_module_or_forget_it(spec, mod, module_name)
     _insert_missing_modules(sys.modules, module_name)
     return mod
+
+
+def _exec_module_or_forget_it(
+    spec: ModuleSpec, mod: ModuleType, module_name: str
+) -> None:
+    """Execute the module and remove it from ``sys.modules`` if the import fails.
+
+    Like the import system itself, do not keep a partially initialized module, otherwise
+    the next import of the same path silently succeeds with an empty module.
+
+    """
+    try:
+        spec.loader.exec_module(mod)  # type: ignore[union-attr]
+    except BaseException:
+        sys.modules.pop(module_name, None)
+        raise
 
 
 def _get_imported_module(module_name: str, path: Path) -> ModuleType | None:
@@ -261,7 +278,7 @@ def _import_module_using_spec(
     if spec is not None:
         mod = importlib.util.module_from_spec(spec)
         sys.modules[module_name] = mod
-        spec.loader.exec_module(mod)  # type: ignore[union-attr]
+        _exec_module_or_forget_it(spec, mod, module_name)
         return mod
 
     return None
